@@ -487,7 +487,12 @@ def gen_case(seed, i, stream=None):
         c["sel"] = {"ast": ast, "arg": arg}
     c["variables"], c["exclude"] = gen_filters(r, script)
     c["umask"] = r.choice(UMASKS)
-    c["pre"] = r.choice(PRE_MODES) if r.random() < .3 else None
+    c["pre"] = r.choice(PRE_MODES) if r.random() < .4 else None
+    # what the pre-existing file holds: a short text, a long one, or a real earlier (larger) dump of every frame
+    # without filters written by a first save to the same path (the second save must replace it completely)
+    c["pre_kind"] = r.choice(["old", "junk_big", "prior_dump", "prior_dump"]) if c["pre"] is not None else None
+    if script and c["pre_kind"] == "prior_dump":
+        c["pre_kind"] = "junk_big"                 # the program runs inside bin/saveframe: no exception beforehand
     c["exc_unpicklable"] = r.random() < .02       # the exception object itself cannot be pickled (known finding N1)
     c["root"] = "src"
     if stream == "debugger" and r.random() < .35:
